@@ -71,6 +71,27 @@ func (c *compiler) module(y *Module) error {
 	return c.compile(y)
 }
 
+// typeLeadsTo is true when target is what a leafref on the way from the type ends on, or a
+// member of a union on that way
+func typeLeadsTo(from *Type, target *Type, seen map[*Type]bool) bool {
+	if from == nil || seen[from] {
+		return false
+	}
+	seen[from] = true
+	if from == target {
+		return true
+	}
+	if from.delegate != nil && from.delegate != from && typeLeadsTo(from.delegate, target, seen) {
+		return true
+	}
+	for _, member := range from.unionTypes {
+		if typeLeadsTo(member, target, seen) {
+			return true
+		}
+	}
+	return false
+}
+
 // baseLeadsTo is true when target is among the bases of from, or the bases of those
 func baseLeadsTo(from *Identity, target *Identity, seen map[*Identity]bool) bool {
 	for _, b := range from.base {
@@ -374,6 +395,10 @@ func (c *compiler) compileType(y *Type, parent Leafable, isUnion bool) error {
 				if d.delegate == d {
 					break
 				}
+			}
+			// nor do they when the way back leads through the member of a union
+			if typeLeadsTo(y.delegate, y, make(map[*Type]bool)) {
+				return fmt.Errorf("%s - %s path %s leads back to the leafref itself", SchemaPath(parent), y.ident, y.path)
 			}
 			// the target may be in an imported module, whose leaves are not compiled otherwise
 			if target, isLeafable := resolvedMeta.(Leafable); isLeafable && y.delegate != nil && int(y.delegate.format) == 0 {
